@@ -4,6 +4,8 @@ Only the property text and a scratch worktree path are given - nothing from /ver
 import json, sys
 pid, wt = sys.argv[1], sys.argv[2]
 n = sys.argv[3] if len(sys.argv) > 3 else "2"
+# optional 4th argument: a focus hint built from the property's own anchors / a defect category (round 2)
+focus = sys.argv[4] if len(sys.argv) > 4 else ""
 p = next(json.loads(l) for l in open('/verif/properties.jsonl') if json.loads(l)['id'] == pid)
 print(f"""You are helping to evaluate a verification framework for oomd (facebookincubator/oomd, a userspace Linux OOM killer written in C++). Your job is to write {n} independent, realistic source changes ("seeded defects") to oomd that each BREAK the behavioural property below while the project still compiles and its existing unit-test suite still passes.
 
@@ -14,6 +16,7 @@ PROPERTY {p['id']}: {p['title']}
 {p['statement']}
 Scope (what it is quantified over): {p['quantifier']['text']}
 
+{("Focus for this round (other rounds cover other parts): " + focus) if focus else ""}
 Requirements for each change:
  * It is a small, plausible edit of the non-test sources under src/oomd (the kind of slip a maintainer could make in a refactor or "optimisation"): not a deliberately absurd sabotage, no edits to tests, no new files needed in the product.
  * The project still builds and ALL existing tests still pass with it:
@@ -21,7 +24,7 @@ Requirements for each change:
    (run this; 234 test cases in 13 executables must pass; read the source and the tests so that you pick something the tests do not pin down).
  * It needs something specific to manifest: a particular interleaving, a fault or crash at a particular point, a multi-step sequence of operations, an unusual input or configuration, or two cooperating sites that each look fine alone. Ordinary, everyday use should NOT expose it at once.
  * It genuinely violates the property as stated (explain how in one paragraph).
- * You must write a demonstration: a small stand-alone C++ program (or gtest file) that links against the built library (_build/liboomd.a, plus -ljsoncpp -lsystemd -lpthread; use -I{wt}/src -std=c++20; gtest/gmock are installed; the test fixtures/helpers in src/oomd/util/Fixture.h and TestHelper.h may be used) which FAILS (non-zero exit or failed assertion) when built against the changed tree and PASSES when built against the unchanged tree. Actually run it both ways (git stash / git apply) and report the outputs.
+ * You must write a demonstration: a small stand-alone C++ program (or gtest file) that links against the built library (_build/liboomd.a, plus -ljsoncpp -lsystemd -lpthread; use -I{wt}/src -std=c++20; gtest/gmock are installed; the test fixtures/helpers in src/oomd/util/Fixture.h and TestHelper.h may be used) which FAILS (non-zero exit or failed assertion) when built against the changed tree and PASSES when built against the unchanged tree. Actually run it both ways (apply the change with `git apply`, remove it with `git apply -R`; NEVER use `git stash`, the stash is shared between worktrees) and report the outputs.
  * The {n} changes should be different in kind from each other (different code sites / mechanisms).
 
 Deliverables - create, for k = 1..{n}, the directory {wt}/seed_out/k/ containing:
